@@ -543,6 +543,17 @@ pub fn oracle_fieldwise(w: &mut Worker, case: &Case) -> Vec<Violation> {
         Some((_, d)) => String::from_utf8_lossy(&d).into_owned(),
         None => return v,
     };
+    // meta.request_rename: [[from, to], ...] textual renamings applied to the source before it is read as
+    // the request -- for spellings whose meaning truth itself states (its deprecation warning says that
+    // 'format', 'width', 'height' "have been renamed to" 'rt_format', 'rt_width', 'rt_height')
+    let mut src = src;
+    if let Some(rs) = case.meta.get("request_rename").and_then(|x| x.as_array()) {
+        for r in rs {
+            if let (Some(a), Some(b)) = (r.get(0).and_then(|x| x.as_str()), r.get(1).and_then(|x| x.as_str())) {
+                src = src.replace(a, b);
+            }
+        }
+    }
     let req = match parse_doc(&src) {
         Ok(d) => d,
         Err(e) => {
